@@ -3,7 +3,7 @@ CONFIG = {
             "(real compiler + VM, stdlib context), every step wrapped in try/except; after every step V records the step's result or exception class and the contents "
             "and identity classes of a, b, c (dict/set contents order-normalised); R = cap() of the Go slices behind the three lists after every step. "
             "exhaustive part: after a fixed prefix (a = literal; b = a; c = copy(a); i = iter(a); next(i)) every continuation of length 1 and 2 (thorough: 3 over a reduced alphabet) over "
-            "the full operation alphabet of the kind (3 names, 4 values / 4 keys, indices 0 1 -1 -4 3, six slices incl. reversed, empty and stop<start, self operands, both iterators), "
+            "the full operation alphabet of the kind (3 names, 4 values / 4 keys, indices 0 1 -1 -4 3, six slices incl. reversed, empty and stop<start, self operands incl. d.update(d) / s.update(s) / l[1:2] = l, insert/pop/remove/reverse/clear/copy, dict update/pop/setdefault/copy/clear, set update/remove/discard/clear/copy, both iterators), "
             "plus all pairs over the 1/True/1.0 set alphabet (C17-K01); seeded part: histories of length 4..12 drawn from the model state (in-range and off-by-one indices, "
             "None/negative/zero slice components, non-iterable and str sources, failing sorts, for-loops that append to the list they iterate). "
             "non-trivial = the history mutates through an aliased name, uses a container as its own operand, mutates a container a live iterator refers to, "
@@ -20,14 +20,119 @@ CONFIG = {
     ],
     "assumptions": [
         "container elements are scalars (None, bool, small int, floats k/2, ASCII str); nested containers, big ints (pointer-keyed in sets) and tuples as set members ({(1,2)} panics: unhashable Go key) are not generated",
-        "list methods that gpython does not provide (insert, pop, remove, reverse, copy, clear, index, count), dict.update/copy/pop/setdefault, set.update/remove/discard and set comparisons are absent from the "
-        "implementation (AttributeError) and are outside the histories ('the other provided methods')",
+        "list.index/count, dict.items()/popitem/fromkeys, set.pop/issubset/issuperset/isdisjoint/difference_update/... and set ordering comparisons are absent from the "
+        "implementation (AttributeError/TypeError) and are outside the histories ('the other provided methods'); the methods the second round added to gpython "
+        "(list insert/pop/remove/reverse/clear/copy, dict update/copy/pop/setdefault/clear, set update/discard/remove/clear/copy) ARE in the histories",
         "sort(key=...) is not generated (a key function that mutates the list during the sort is outside the model); lists longer than 20 are not sorted when a comparison can fail",
         "a list is never extended from its own live iterator (diverges in Python as well)",
         "the order in which a dict/set iterator yields is not observed (next: only success/StopIteration; draining: the count)",
     ],
+    "shrinking": "operation removal (checks/c17.py:shrink): every case carries its history in the h= tag; the reported witness of each violation group is "
+                 "re-evaluated by `gpymodel-C17 C17 eval` (same model and specification) and the harness with operations removed (chunks, then single operations) "
+                 "until no removal keeps the implementation/specification disagreement",
     "exhaustive": True,
     "dist_tokens": 9,
     "case_timeout": 60.0,
     "group": lambda r: " | ".join(r["tags"][1:4]) if r.get("tags") else r["input"][:30],
 }
+
+
+# ---------------------------------------------------------------------------------------------
+# operation-removal shrinker (DESIGN "shrinking removes operations while the disagreement persists")
+import os, subprocess
+
+
+def _history(tags):
+    for t in tags or []:
+        if t.startswith("h="):
+            kind, _, body = t[2:].partition("/")
+            return kind, (body.split(";") if body else [])
+    return None, None
+
+
+def _evaluate(kind, cands):
+    """re-run model + specification (Lean driver, eval mode) and the implementation (harness) on candidate histories"""
+    import common
+    model_bin = os.path.join(common.LEAN, ".lake", "build", "bin", "gpymodel-C17")
+    hbin = os.path.join(common.WORK, "gpyh.bin")
+    inp = "".join(kind + "/" + ";".join(c) + "\n" for c in cands)
+    p = subprocess.run([model_bin, "C17", "eval", "0"], input=inp, stdout=subprocess.PIPE, stderr=subprocess.PIPE, text=True, timeout=600)
+    lines = p.stdout.splitlines()
+    if p.returncode != 0 or len(lines) != len(cands):
+        raise RuntimeError("gpymodel-C17 eval failed: " + p.stderr[-200:])
+    cases = [(l.split("\t") + [""] * 5)[:5] for l in lines]
+    impl = common.run_impl_sharded(hbin, ["C17"], [c[0] for c in cases], workers=min(8, max(1, len(cases))), per_case_timeout=60.0)
+    return cases, impl
+
+
+def _still_fails(case, im, known):
+    inp, mV, _mR, sV, tags = case
+    if inp == "UNDECODABLE" or "STUCK" in sV or "STUCK" in mV or im is None:
+        return False
+    iv = im.split("\t")[0]
+    if iv == sV or iv.startswith("SKIPPED"):
+        return False
+    kf = [t[3:] for t in tags.split(",") if t.startswith("kf=")]
+    if kf and kf[0] in known and iv == mV:
+        return False       # inside a recorded finding: not the disagreement we are minimising
+    return True
+
+
+def shrink(v, run=None, log=None):
+    """remove operations (halving chunks, then single operations) while impl.V != spec.V persists"""
+    import common
+    kind, ops = _history(v.get("tags"))
+    if kind is None or len(ops) <= 1:
+        return v
+    known, _ = common.parse_known()
+    known = {k: x for k, x in known.items() if x.get("property") == "C17"}
+    cur = list(ops)
+    rounds = 0
+    size = max(1, len(cur) // 2)
+    while True:
+        cands = [cur[:i] + cur[i + size:] for i in range(0, len(cur), 1 if size == 1 else size) if cur[i:i + size]]
+        cands = [c for c in cands if len(c) < len(cur)]
+        if not cands:
+            break
+        cases, impl = _evaluate(kind, cands)
+        rounds += 1
+        hit = next((k for k, (c, im) in enumerate(zip(cases, impl)) if _still_fails(c, im, known)), None)
+        if hit is not None:
+            cur = cands[hit]
+            size = max(1, min(size, len(cur) // 2))
+            continue
+        if size == 1:
+            break
+        size = max(1, size // 2)
+    if len(cur) == len(ops):
+        return v
+    cases, impl = _evaluate(kind, [cur])
+    c, im = cases[0], impl[0]
+    if not _still_fails(c, im, known):
+        return v
+    iv, ir = (im.split("\t") + ["", ""])[:2]
+    out = dict(v, input=c[0], impl=iv, impl_repr=ir, model=c[1], spec=c[3], tags=c[4].split(","),
+               shrunk_from=v["input"], shrunk_ops=f"{len(ops)} -> {len(cur)} operations in {rounds} rounds")
+    msg = f"shrunk {len(ops)} -> {len(cur)} operations: {c[0]}"
+    (run.say if run is not None else (log or print))(msg)
+    return out
+
+
+if __name__ == "__main__":   # python3 checks/c17.py <replay.json | cases-file-line-with-h-tag>: shrink by hand
+    import sys, json
+    sys.path.insert(0, os.path.dirname(os.path.abspath(__file__)))
+    arg = sys.argv[1]
+    if arg.endswith(".json"):
+        rec = json.load(open(arg))
+        # a replay record has no tags: find the case in work/C17.cases
+        import common
+        src = rec.get("shrunk_from") or rec["input"]
+        for l in open(os.path.join(common.WORK, "C17.cases")):
+            f = l.rstrip("\n").split("\t")
+            if f[0] == src:
+                rec["tags"] = f[4].split(",")
+                break
+    else:
+        f = arg.split("\t")
+        rec = {"input": f[0], "tags": f[4].split(",")}
+    print(json.dumps(shrink(rec), indent=1))
